@@ -8,7 +8,7 @@ from ..asyncworld import PROBE, VERSION_REPLY, AsyncWorld
 from ..common import Report, Violation, short
 
 PROP = "C20"
-EVENTS = [("conn", "ok"), ("timer",), ("conn", "refuse"), ("conn", "stall"), ("lost", "error"), ("lost", "eof"), ("data",), ("send",), ("disconnect",), ("stop",)]
+EVENTS = [("conn", "ok"), ("timer",), ("conn", "refuse"), ("conn", "stall"), ("lost", "error"), ("lost", "eof"), ("data",), ("send",), ("send-fail",), ("disconnect",), ("stop",)]
 
 
 class SupervisionMonitor:
@@ -56,14 +56,16 @@ class SupervisionMonitor:
             how = world.loss_causes[idx] if world.loss_causes else ev[0]
             viols.append(self.v(world, "on_conn_lost-count", f"{hist}: {ended} link(s) ended, connection-lost callback fired {len(world.lost)} time(s)", f"link-ended-by-{how}"))
         live = [t for t in loop.links_made if not t.lost_reported and not t.closed]
-        if len(live) > 1:
-            self.stats["more_than_one_live_link"] += 1
+        in_flight = len(loop.live_requests()) + len([f for f in world.stalled if not f.done()])
+        if len(live) + in_flight > 1:
+            # single-threaded flavour: one loss is answered by one dial, never by two
+            viols.append(self.v(world, "duplicate-reconnect", f"{hist}: {len(live)} live link(s) and {in_flight} connect attempt(s) in flight at the same time"))
         # supervision: after a loss the user did not request, an attempt must be in flight (or a retry timer armed)
         if not world.user_disconnected:
-            if not live and not loop.conn_requests and not [f for f in world.stalled if not f.done()] and not loop.pending_timers():
+            if not live and not loop.live_requests() and not [f for f in world.stalled if not f.done()] and not loop.pending_timers():
                 how = ev[0] + ("/" + ev[1] if len(ev) > 1 else "")
                 viols.append(self.v(world, "no-reconnect", f"{hist}: the link is down, the user did not ask for it, and neither a connect attempt nor a retry timer is pending", how))
-            if ev[0] == "lost" and not loop.conn_requests:
+            if ev[0] in ("lost", "send-fail") and not loop.live_requests():
                 viols.append(self.v(world, "no-immediate-reconnect", f"{hist}: no reconnect attempt follows the loss ({ev[1]})", ev[1]))
         # retry interval: the attempt after a failed one starts exactly R after the failure
         if world.stopped:
